@@ -1,6 +1,8 @@
 import T4V.Text.Lex
 import T4V.Text.Blocks
 import T4V.Proofs.CellCard
+import T4V.Proofs.CardSplit
+import T4V.Proofs.OptTokens
 /-!
 # Property C14 — output does not depend on MCNP-insignificant formatting of the deck
 
@@ -305,5 +307,63 @@ example : splitCell "7 0.0 (1 2)*trcl=(1 0 0)".toList
 open T4V.CC in
 example : splitCell "12 LiKe 5 bUt imp:n=0".toList
     = .ok { name := "12".toList, mat := [], geom := " LiKe 5 bUt".toList, opts := " imp:n=0".toList } := by rfl
+
+/-! ### surface and data cards (`surfacecard.split`, `datacard.split` on the one-line content) -/
+open T4V.CC in
+/-- **a surface card** `[*+]n mnemonic parameters` is cut into exactly these fields: any boundary flags, any number,
+any mnemonic of letters and `/` in any letter case, any parameter text -/
+theorem surface_card_split (flags ds mn params : List Char)
+    (hf : ∀ c ∈ flags, isFlag c = true) (hds : ds ≠ [] ∧ ∀ c ∈ ds, isDigit c = true)
+    (hmn : mn ≠ [] ∧ ∀ c ∈ mn, isMnChar c = true) (hp : ∀ c r, params = c :: r → cws c = false) :
+    splitSurface (flags ++ (ds ++ ' ' :: (mn ++ ' ' :: params)))
+      = some { name := flags ++ ds, tr := [], mn := mn, params := params } :=
+  split_surface_plain flags ds mn params hf hds hmn hp
+
+open T4V.CC in
+/-- **a surface card with a transformation number** `[*+]n [±]t mnemonic parameters` -/
+theorem surface_card_split_tr (flags ds sg td mn params : List Char)
+    (hf : ∀ c ∈ flags, isFlag c = true) (hds : ds ≠ [] ∧ ∀ c ∈ ds, isDigit c = true)
+    (hsg : ∀ c ∈ sg, isSign c = true) (htd : td ≠ [] ∧ ∀ c ∈ td, isDigit c = true)
+    (hmn : mn ≠ [] ∧ ∀ c ∈ mn, isMnChar c = true) (hp : ∀ c r, params = c :: r → cws c = false) :
+    splitSurface (flags ++ (ds ++ ' ' :: (sg ++ (td ++ ' ' :: (mn ++ ' ' :: params)))))
+      = some { name := flags ++ ds, tr := sg ++ td ++ [' '], mn := mn, params := params } :=
+  split_surface_tr flags ds sg td mn params hf hds hsg htd hmn hp
+
+open T4V.CC in
+/-- **a numbered data card** (`m1 …`, `tr5 …`, `*TR5 …`): type (with its stars, any letter case), number, the rest -/
+theorem data_card_split (stars ls ds rest : List Char)
+    (hst : ∀ c ∈ stars, (c == '*') = true) (hls : ls ≠ [] ∧ ∀ c ∈ ls, isLetter c = true)
+    (hds : ds ≠ [] ∧ ∀ c ∈ ds, isDigit c = true) :
+    splitData (stars ++ (ls ++ (ds ++ ' ' :: rest)))
+      = some { typ := stars ++ ls, name := ds, star := [], params := ' ' :: rest } :=
+  split_data_numbered stars ls ds rest hst hls hds
+
+open T4V.CC in
+example : splitSurface "*12 -3 c/Z 1.5 -2 4".toList
+    = some { name := "*12".toList, tr := "-3 ".toList, mn := "c/Z".toList, params := "1.5 -2 4".toList } := by decide
+open T4V.CC in
+example : splitData "*TR5 0 0 1 30 60 90".toList
+    = some { typ := "*TR".toList, name := "5".toList, star := [], params := " 0 0 1 30 60 90".toList } := by decide
+-- observation O3 as the model shows it: the first entry `.5` of an `IMP:N` card loses its point to the card name
+open T4V.CC in
+example : splitData "imp:n .5 1 1".toList
+    = some { typ := "imp:n .".toList, name := "5".toList, star := [], params := " 1 1".toList } := by decide
+
+/-! ### keyword tokens of a cell card (`parse_one_cell_worker`: colons squeezed, lower-cased, `( ) =` → blank, split) -/
+open T4V.CC in
+/-- **letter case of the cell keywords is immaterial**: option texts that differ only in the case of their letters
+give the same tokens to `parse_keywords` -/
+theorem keyword_case_immaterial (s s' : List Char) (h : s.map lower = s'.map lower) : optTokens s = optTokens s' :=
+  optTokens_case_insensitive s s' h
+
+open T4V.CC in
+/-- `str.split()` returns the words of a text whose words are separated by single blanks (what `Card.content`
+produces) -/
+theorem split_returns_the_words (words : List (List Char)) (h : ∀ x ∈ words, x ≠ [] ∧ ∀ c ∈ x, cws c = false) :
+    splitWs (joinSp words) = words := splitWs_join words h
+
+open T4V.CC in
+example : optTokens "IMP : N=1 *Fill=3 (1 0 0)  TrCl=( 0 0 1 )U=2".toList
+    = ["imp:n", "1", "*fill", "3", "1", "0", "0", "trcl", "0", "0", "1", "u", "2"].map String.toList := by decide
 
 end T4V.C14
